@@ -122,13 +122,13 @@ structure Entry where
   run : Nat
 deriving Repr, DecidableEq, Inhabited
 
-/-- the id loop of `from_blob`: `last_id += diff` is an unchecked `u64` addition -/
+/-- the id loop of `from_blob`: `last_id.checked_add(diff)` (error on overflow since /repo 6ba9ed01) -/
 def readIds : Nat → Nat → Bytes → Outcome (List Nat × Bytes)
   | 0, _, bs => .ok ([], bs)
   | n + 1, last, bs =>
     match readVarint bs with
     | .ok (d, r) =>
-      if last + d ≥ U64 then .panic
+      if last + d ≥ U64 then .err
       else match readIds n (last + d) r with
         | .ok (ids, r') => .ok ((last + d) :: ids, r')
         | .err => .err
@@ -136,12 +136,12 @@ def readIds : Nat → Nat → Bytes → Outcome (List Nat × Bytes)
     | .err => .err
     | .panic => .panic
 
-/-- one value of the offset column: `tmp == 0` (not first) → previous offset + previous length
-    (unchecked), otherwise `tmp - 1` (unchecked: a leading 0 underflows) -/
+/-- one value of the offset column: `tmp == 0` (not first) → previous offset + previous length,
+    otherwise `tmp - 1`; both checked (overflow / a leading 0 are errors since /repo 6ba9ed01) -/
 def offOf (prev : Option (Nat × Nat)) (t : Nat) : Outcome Nat :=
   match prev, t with
-  | some (po, pl), 0 => if po + pl ≥ U64 then .panic else .ok (po + pl)
-  | none, 0 => .panic
+  | some (po, pl), 0 => if po + pl ≥ U64 then .err else .ok (po + pl)
+  | none, 0 => .err
   | _, t' + 1 => .ok t'
 
 /-- the offset loop of `from_blob` -/
